@@ -275,6 +275,9 @@ def check(run):
                 run.violation('R-CLASS', f'{short}: loop over class indices', fn.loc(L.node), 'a loop enumerates class indices (per-class special treatment is possible)',
                               construct=f'R-CLASS::{fn.qual}::class-loop')
     check_flat_indices(run, A)
+    # a lookup table filled inside the loop over the (frequency, class) entries hands the value of the first class that reaches a cell to the others: relabelling changes which
+    from . import c20 as _c20
+    _c20.check_instance_tables(run, A, ('pb_bss.distribution.',))
     run.count('subscripts with integer literals examined', n_sub)
     run.floor('subscripts with a resolved class axis', n_res, 6)
     run.floor('reductions over a resolved class axis', n_ax, 6)
